@@ -1,2 +1,4 @@
 SPECIFICATION Spec
+CONSTANTS
+  PipeIsDelimiter = TRUE
 CHECK_DEADLOCK FALSE
